@@ -1407,3 +1407,58 @@ def x13(e: Engine, rep: Report):
                             loc=c.loc())
     if n < 2:
         rep.error('anchor vanished: MAIL / RCPT command sites (%d < 2)' % n)
+
+
+# ------------------------------------------------- keyword cross-check (C07)
+def cross_keywords(e: Engine, rep: Report, rule: str):
+    """The pattern MAIL takes its path with does not accept what introduces
+    the path of RCPT, and the other way round (`MAIL TO:<x>` is malformed)."""
+    heads, pats, sites = {}, {}, {}
+    for meth, verb in (('mailfrom', b'MAIL'), ('rcptto', b'RCPT')):
+        ctx = e.method_ctx(CLIENT, meth)
+        g = e.build(ctx, raises=lambda b, n, r: set(),
+                    inline=e.inline_same_self(deny=['_flush_pipeline']),
+                    max_depth=3)
+        for n, arg in _sent_commands(e, g):
+            sh = common.bytes_shape(g, arg, n.frame)
+            if sh and sh[0][0] == 'lit' and isinstance(sh[0][1], bytes) and \
+                    sh[0][1].upper().startswith(verb + b' '):
+                heads[verb] = sh[0][1][len(verb) + 1:]
+        sctx = e.method_ctx(SERVER, '_command_' + verb.decode())
+        sg = e.build(sctx, raises=lambda b, n, r: set(),
+                     inline=e.inline_same_self(
+                         deny=['_call_custom_handler', '_gather_params',
+                               '_check_close_code']), max_depth=3)
+        rep.functions.add(sctx.func.qname)
+        sites[verb] = sctx.func
+        pats[verb] = []
+        for n in sg.calls():
+            f = n.ast.func
+            if isinstance(f, ast.Attribute) and f.attr in ('match',
+                                                           'fullmatch') \
+                    and n.ast.args:
+                p0, _ = common.origin(sg, f.value, n.frame)
+                if isinstance(p0, ast.Name):
+                    got = rx.module_pattern(e, 'slimta.smtp.server', p0.id)
+                    if got is not None:
+                        pats[verb].append((p0.id, got, n))
+    if len(heads) < 2 or not all(pats.values()):
+        rep.unknown(rule, SERVER, 'MAIL / RCPT keyword patterns',
+                    'cannot read the keyword literals / patterns of MAIL '
+                    'and RCPT', loc=sites[b'MAIL'].loc()
+                    if b'MAIL' in sites else None)
+        return
+    for verb, other in ((b'MAIL', b'RCPT'), (b'RCPT', b'MAIL')):
+        head = heads[other]
+        for pname, pat, n in pats[verb]:
+            rep.evaluations += 1
+            ends = rx.match_ends(rx.parse(pat[0], pat[1]), head, pat[1])
+            rep.check(len(head) not in ends, rule, sites[verb].qname,
+                      '%s does not take the %s keyword %r'
+                      % (pname, other.decode(), head),
+                      '%s (%r), with which %s takes its path, also matches '
+                      '%r: the malformed line `%s %sx>` passes the syntax '
+                      'check and reaches the %s callback'
+                      % (pname, pat[0], sites[verb].name, head,
+                         verb.decode(), head.decode(), verb.decode()),
+                      loc=n.loc(), reason='%s rejects %r' % (pname, head))
